@@ -94,14 +94,15 @@ def gen_field(kind, lv, f, idx, centres, seed=0):
     raise ValueError("unknown payload kind %r" % kind)
 
 
-def apply_hostile(arr, f):
+def apply_hostile(arr, f, nan=True):
     """Overwrite fixed cells of a box/field with non-finite / denormal / huge values."""
     flat = arr.reshape(-1, order='F')
     n = flat.size
     bits = flat.view(np.uint64)
-    m = min(n, len(HOSTILE_BITS))
+    pats = HOSTILE_BITS if nan else HOSTILE_BITS[2:]
+    m = min(n, len(pats))
     for c in range(m):
-        bits[(c + f) % n] = HOSTILE_BITS[c]
+        bits[(c + f) % n] = pats[c]
     return flat.reshape(arr.shape, order='F')
 
 
@@ -282,7 +283,7 @@ def refplot_from_desc(desc):
     payload = d["payload"]
     hostile = False
     if isinstance(payload, str):
-        if payload == 'hostile':
+        if payload in ('hostile', 'hostile_nonan'):
             hostile = True
             kinds = ['coded'] * len(fields)
         else:
@@ -305,7 +306,7 @@ def refplot_from_desc(desc):
             for f, kind in enumerate(kinds):
                 a = gen_field(kind, lv, f, idx, cen, d["seed"])
                 if hostile:
-                    a = apply_hostile(a, f)
+                    a = apply_hostile(a, f, nan=(payload == 'hostile'))
                 arr[..., f] = a
             lvd.append(arr)
         boxes.append(lvb)
